@@ -1170,6 +1170,7 @@ mod engine {
 
     type C = TngComplex<i64>;
     const TEXT_LIMIT: usize = 1200;
+    const WF_LIMIT: usize = 24;
 
     pub fn key_txt(k: &TngKey) -> String {
         let mut s = String::new();
@@ -1222,7 +1223,9 @@ mod engine {
     fn nedges(c: &C) -> usize { c.keys().map(|k| c.keys_out_from(k).count()).sum() }
     fn dump(c: &C) -> String {
         let txt = state_text(c);
-        let head = format!("nv={} ne={} wf={} h={}", c.nverts(), nedges(c), wf(c) as u8, fnv(&txt));
+        // the (expensive) well-formedness check only on complexes with at most WF_LIMIT vertices — same rule in the driver
+        let w = if c.nverts() <= WF_LIMIT { (wf(c) as u8).to_string() } else { "-".to_string() };
+        let head = format!("nv={} ne={} wf={} h={}", c.nverts(), nedges(c), w, fnv(&txt));
         if txt.len() <= TEXT_LIMIT { format!("{} {}", head, txt) } else { head }
     }
     /// circles that may be delooped now.  A circle through the base point (reduced theory) is only delooped at the very
@@ -1514,13 +1517,13 @@ fn engine_stream(s: &mut Sink, r: &mut Rng, thorough: bool, cases: &[Case]) {
     let max_n = if thorough { 8 } else { 6 };
     let mut pool: Vec<&Case> = cases.iter().filter(|c| c.link.data().len() <= max_n && c.link.data().len() >= 2).collect();
     r.shuffle(&mut pool);
-    let n_scripts = if thorough { 400 } else { 36 };
+    let n_scripts = if thorough { 110 } else { 36 };
     for k in 0..n_scripts {
         if pool.is_empty() { break }
         let c = pool[k % pool.len()];
         let ht = *r.pick(&hts[..4]);
         let red = ht.1 == 0 && r.chance(1, 3);
-        let plan = Plan { cap: if thorough { 96 } else { 40 }, with_ref: true, malformed: r.chance(1, 4) };
+        let plan = Plan { cap: if thorough { 64 } else { 40 }, with_ref: true, malformed: r.chance(1, 4) };
         script(s, r, &c.name, &c.link, ht, red, &plan);
     }
     // … and a few larger ones in the thorough tier (9–10 crossings; the cube reference only up to 9)
@@ -1528,14 +1531,14 @@ fn engine_stream(s: &mut Sink, r: &mut Rng, thorough: bool, cases: &[Case]) {
         let mut names = table_names(10);
         names.retain(|n| load(n).map(|l| l.crossing_num() >= 9).unwrap_or(false));
         r.shuffle(&mut names);
-        for n in names.into_iter().take(10) {
+        for n in names.into_iter().take(5) {
             if let Some(l) = load(&n) {
                 let ht = *r.pick(&hts[..3]);
                 let plan = Plan { cap: 40, with_ref: l.crossing_num() <= 9, malformed: false };
                 script(s, r, &n, &l, ht, false, &plan);
             }
         }
-        for _ in 0..6 {
+        for _ in 0..3 {
             let strands = 3 + r.below(2) as usize;
             let len = 9 + r.below(2) as usize;
             let (w, l) = random_braid(r, strands, len);
